@@ -277,6 +277,8 @@ def coons_patch(bottom, right, top, left):
     :rtype: Surface
     """
     # coons patch (https://en.wikipedia.org/wiki/Coons_patch)
+    top  = top.clone()   # don't mess with the input curves
+    left = left.clone()
     top.reverse()
     left.reverse()
 
